@@ -37,6 +37,10 @@ class StmtMixin:
         m = getattr(self, 's_' + type(stmt).__name__, None)
         if m is None:
             raise Unsupported('statement %s at line %s' % (type(stmt).__name__, stmt.lineno))
+        if getattr(self, 'side', 'impl') != 'ref':
+            seen = getattr(self, 'stmt_seen', None)
+            if seen is not None:
+                seen.add((module, stmt.lineno, stmt.col_offset))
         return m(stmt, st, module)
 
     def _lift(self, results, f):
@@ -907,7 +911,7 @@ class StmtMixin:
                     s = s.fork()
                     if ghost:
                         s.env[ghost] = SV('int', j + 1)
-                    self.check_clauses(s, lc['invariant'], module, '%s::preserved[%s@L%d]' % (label, kind, self.last_line(s, node)), lc)
+                    self.check_clauses(s, lc['invariant'], module, '%s::preserved[%s]' % (label, kind), lc)
                 elif kind == 'break':
                     outs.append(Out('fall', s))
                 elif kind == 'stop':
